@@ -179,7 +179,9 @@ def make_worker(tier):
                     S.add("nontrivial", (st, unroll, options))
                 inp = {"text": text, "impl": name, "unroll": unroll, "shape": type_str(st), "options": options}
                 try:
-                    enc = make_encoder("packed", fcp, PackedEncoderContext().with_unroll_arrays(unroll))
+                    # 'when requested': the default context must NOT unroll (odd cases use the default constructor)
+                    ctx = PackedEncoderContext() if (not unroll and idx % 2) else PackedEncoderContext().with_unroll_arrays(unroll)
+                    enc = make_encoder("packed", fcp, ctx)
                     got = observe(enc.generate(impls[name]))
                 except Exception as e:  # noqa
                     S.add("outcomes", "exc:" + type(e).__name__)
